@@ -57,8 +57,11 @@ pub proof fn axiom_vclock_key<A: Ord + Hash>()
 {}
 
 /// hypotheses on the type parameters (usage contract of the crate)
+pub open spec fn base_ok<M: Hash + Eq, A: Ord + Hash>() -> bool {
+    actor_ok::<A>() && key_ok::<M>() && key_ok::<VClock<A>>()
+}
 pub open spec fn params_ok<M: Hash + Eq, A: Ord + Hash + Clone>() -> bool {
-    actor_ok::<A>() && clone_ok::<A>() && key_ok::<M>() && key_ok::<VClock<A>>()
+    base_ok::<M, A>() && clone_ok::<A>()
 }
 
 impl<M: Hash + Eq, A: Ord + Hash> Orswot<M, A> {
@@ -95,11 +98,36 @@ impl<M: Hash + Eq, A: Ord + Hash> Default for Orswot<M, A> {
 //@end
 }
 
+/// exact effect of Orswot::apply (C04): see the three cases
+pub open spec fn apply_post<M: Hash + Eq, A: Ord + Hash>(old_: Orswot<M, A>, op: Op<M, A>, new_: Orswot<M, A>) -> bool {
+        // --- Rm: exactly apply_rm with the named members
+        &&& op is Rm ==> {
+            &&& new_.cl() == old_.cl()
+            &&& forall|m: M| #[trigger] new_.ec(m) == (if op->Rm_members@.contains(m) { vsub(old_.ec(m), op->Rm_clock@) } else { old_.ec(m) })
+            &&& new_.defs() == (if vle(op->Rm_clock@, old_.cl()) { old_.defs() } else { old_.defs().insert(op->Rm_clock, new_.defs()[op->Rm_clock]) })
+            &&& (!vle(op->Rm_clock@, old_.cl()) ==> new_.defs().contains_key(op->Rm_clock) && new_.defs()[op->Rm_clock]@ == old_.dm(op->Rm_clock).union(op->Rm_members@.to_set()))
+        }
+        // --- Add already seen (duplicate / stale): nothing changes
+        &&& ((op is Add && cnt(old_.cl(), op->Add_dot.actor) >= op->Add_dot.counter) ==> new_ == old_)
+        // --- new Add: every named member gains the dot, the clock learns it, pending removes are re-applied
+        &&& (op is Add && cnt(old_.cl(), op->Add_dot.actor) < op->Add_dot.counter) ==> {
+            let d = op->Add_dot;
+            let ms = op->Add_members@;
+            &&& new_.cl() == old_.cl().insert(d.actor, d.counter)
+            &&& forall|m: M, a: A| #![trigger cnt(new_.ec(m), a)] cnt(new_.ec(m), a) == ({
+                    let e = if ms.contains(m) { vapp(old_.ec(m), d.actor, d.counter) } else { old_.ec(m) };
+                    if covered_by(old_.defs(), m, a, cnt(e, a)) { 0 } else { cnt(e, a) } })
+            &&& forall|k: VClock<A>| #![trigger new_.defs().contains_key(k)] new_.defs().contains_key(k) <==> (old_.defs().contains_key(k) && !vle(k@, new_.cl()))
+            &&& forall|k: VClock<A>| #![trigger new_.defs()[k]] new_.defs().contains_key(k) ==> new_.defs()[k]@ == old_.defs()[k]@
+        }
+}
+
 impl<M: Hash + Clone + Eq, A: Ord + Hash + Clone> CmRDT for Orswot<M, A> {
     type Op = Op<M, A>;
     type Validation = <VClock<A> as CmRDT>::Validation;
-    open spec fn cm_inv(&self) -> bool { params_ok::<M, A>() && self.wf() }
-    open spec fn cm_pre(&self, op: &Op<M, A>) -> bool { op is Rm ==> nz(op->Rm_clock@) }
+    open spec fn cm_inv(&self) -> bool { base_ok::<M, A>() && self.wf() }
+    open spec fn cm_pre(&self, op: &Op<M, A>) -> bool { clone_ok::<A>() && (op is Rm ==> nz(op->Rm_clock@)) }
+    open spec fn cm_post(old_: &Self, op: &Op<M, A>, new_: &Self) -> bool { apply_post(*old_, *op, *new_) }
 
 //@extract fn src/orswot.rs "CmRDT for Orswot" validate_op
     fn validate_op(&self, op: &Self::Op) -> /*@ (r: @*/ Result<(), Self::Validation> /*@ ) @*/
@@ -117,27 +145,7 @@ impl<M: Hash + Clone + Eq, A: Ord + Hash + Clone> CmRDT for Orswot<M, A> {
 
 //@extract fn src/orswot.rs "CmRDT for Orswot" apply
     fn apply(&mut self, op: Self::Op)
-    //@ ensures
-    //@     // --- Rm: exactly apply_rm with the named members
-    //@     op is Rm ==> {
-    //@         &&& final(self).cl() == old(self).cl()
-    //@         &&& forall|m: M| #[trigger] final(self).ec(m) == (if op->Rm_members@.contains(m) { vsub(old(self).ec(m), op->Rm_clock@) } else { old(self).ec(m) })
-    //@         &&& final(self).defs() == (if vle(op->Rm_clock@, old(self).cl()) { old(self).defs() } else { old(self).defs().insert(op->Rm_clock, final(self).defs()[op->Rm_clock]) })
-    //@         &&& (!vle(op->Rm_clock@, old(self).cl()) ==> final(self).defs().contains_key(op->Rm_clock) && final(self).defs()[op->Rm_clock]@ == old(self).dm(op->Rm_clock).union(op->Rm_members@.to_set()))
-    //@     },
-    //@     // --- Add already seen (duplicate / stale): nothing changes
-    //@     (op is Add && cnt(old(self).cl(), op->Add_dot.actor) >= op->Add_dot.counter) ==> *final(self) == *old(self),
-    //@     // --- new Add: every named member gains the dot, the clock learns it, pending removes are re-applied
-    //@     (op is Add && cnt(old(self).cl(), op->Add_dot.actor) < op->Add_dot.counter) ==> {
-    //@         let d = op->Add_dot;
-    //@         let ms = op->Add_members@;
-    //@         &&& final(self).cl() == old(self).cl().insert(d.actor, d.counter)
-    //@         &&& forall|m: M, a: A| #![trigger cnt(final(self).ec(m), a)] cnt(final(self).ec(m), a) == ({
-    //@                 let e = if ms.contains(m) { vapp(old(self).ec(m), d.actor, d.counter) } else { old(self).ec(m) };
-    //@                 if covered_by(old(self).defs(), m, a, cnt(e, a)) { 0 } else { cnt(e, a) } })
-    //@         &&& forall|k: VClock<A>| #![trigger final(self).defs().contains_key(k)] final(self).defs().contains_key(k) <==> (old(self).defs().contains_key(k) && !vle(k@, final(self).cl()))
-    //@         &&& forall|k: VClock<A>| #![trigger final(self).defs()[k]] final(self).defs().contains_key(k) ==> final(self).defs()[k]@ == old(self).defs()[k]@
-    //@     },
+    //@ ensures apply_post(*old(self), op, *final(self)),
     {
         match op {
             Op::Add { dot, members } => {
@@ -254,10 +262,23 @@ pub open spec fn mrg(es: u64, eo: u64, cs: u64, co: u64) -> u64 {
     max64(max64(if eo == es { es } else { 0 }, if eo > cs { eo } else { 0 }), if es > co { es } else { 0 })
 }
 
+/// exact effect of Orswot::merge
+pub open spec fn merge_post<M: Hash + Eq, A: Ord + Hash>(old_: Orswot<M, A>, other: Orswot<M, A>, new_: Orswot<M, A>) -> bool {
+        &&& is_join(new_.cl(), old_.cl(), other.cl())
+        // a witness dot survives the merge iff the per-actor rule `mrg` keeps it and no pending remove of either side covers it
+        &&& forall|m: M, a: A| #![trigger cnt(new_.ec(m), a)] cnt(new_.ec(m), a) == ({
+            let x = mrg(cnt(old_.ec(m), a), cnt(other.ec(m), a), cnt(old_.cl(), a), cnt(other.cl(), a));
+            if covered_by(old_.defs(), m, a, x) || covered_by(other.defs(), m, a, x) { 0 } else { x } })
+        // pending removes of both sides travel with the merge, as long as the merged clock does not cover them
+        &&& forall|k: VClock<A>| #![trigger new_.defs().contains_key(k)] new_.defs().contains_key(k) <==> ((old_.defs().contains_key(k) || other.defs().contains_key(k)) && !vle(k@, new_.cl()))
+        &&& forall|k: VClock<A>| #![trigger new_.defs()[k]] new_.defs().contains_key(k) ==> new_.defs()[k]@ == old_.dm(k).union(other.dm(k))
+}
+
 impl<M: Hash + Eq + Clone, A: Ord + Hash + Clone> CvRDT for Orswot<M, A> {
     type Validation = Validation<M, A>;
-    open spec fn cv_inv(&self) -> bool { params_ok::<M, A>() && self.wf() }
-    open spec fn cv_pre(&self, other: &Self) -> bool { true }
+    open spec fn cv_inv(&self) -> bool { base_ok::<M, A>() && self.wf() }
+    open spec fn cv_pre(&self, other: &Self) -> bool { clone_ok::<A>() }
+    open spec fn cv_post(old_: &Self, other: &Self, new_: &Self) -> bool { merge_post(*old_, *other, *new_) }
 
 //@extract fn src/orswot.rs "CvRDT for Orswot" validate_merge
     fn validate_merge(&self, other: &Self) -> /*@ (r: @*/ Result<(), Self::Validation> /*@ ) @*/
@@ -269,7 +290,7 @@ impl<M: Hash + Eq + Clone, A: Ord + Hash + Clone> CvRDT for Orswot<M, A> {
         //@ let ghost ss = sit.remaining();
         for (member, clock) in /*@ it1: sit @*/ /*@<*/ self.entries.iter() /*@>*/
         //@ invariant
-        //@     params_ok::<M, A>(), self.wf(), other.wf(), it1.seq() == ss,
+        //@     base_ok::<M, A>(), self.wf(), other.wf(), it1.seq() == ss,
         //@     forall|i: int| 0 <= i < ss.len() ==> self.ents().contains_key(*(#[trigger] ss[i]).0) && self.ents()[*ss[i].0] == *ss[i].1,
         //@     forall|k: M| self.ents().contains_key(k) ==> ss.contains((&k, &self.ents()[k])),
         //@     eq_ok::<M>() ==> forall|i: int, m2: M, a: A| 0 <= i < it1.index@ ==> !#[trigger] conflict(*self, *other, *ss[i].0, m2, a),
@@ -279,7 +300,7 @@ impl<M: Hash + Eq + Clone, A: Ord + Hash + Clone> CvRDT for Orswot<M, A> {
             //@ let ghost os = oit.remaining();
             for (other_member, other_clock) in /*@ it2: oit @*/ /*@<*/ other.entries.iter() /*@>*/
             //@ invariant
-            //@     params_ok::<M, A>(), self.wf(), other.wf(), it2.seq() == os, nz(clock@),
+            //@     base_ok::<M, A>(), self.wf(), other.wf(), it2.seq() == os, nz(clock@),
             //@     self.ents().contains_key(*member), self.ents()[*member] == *clock,
             //@     forall|i: int| 0 <= i < os.len() ==> other.ents().contains_key(*(#[trigger] os[i]).0) && other.ents()[*os[i].0] == *os[i].1,
             //@     forall|k: M| other.ents().contains_key(k) ==> os.contains((&k, &other.ents()[k])),
@@ -289,7 +310,7 @@ impl<M: Hash + Eq + Clone, A: Ord + Hash + Clone> CvRDT for Orswot<M, A> {
                 for Dot { actor, counter } in /*@ it3: @*/ clock.iter()
                 //@ invariant
                 //@     it3.iter.obeys_prophetic_iter_laws(), it3.iter.decrease() is Some,
-                //@     params_ok::<M, A>(), nz(clock@),
+                //@     base_ok::<M, A>(), nz(clock@),
                 //@     self.ents().contains_key(*member), self.ents()[*member] == *clock,
                 //@     other.ents().contains_key(*other_member), other.ents()[*other_member] == *other_clock,
                 //@     dots_of(it3.seq(), clock@, it3.snapshot@.will_return_none()),
@@ -317,15 +338,7 @@ impl<M: Hash + Eq + Clone, A: Ord + Hash + Clone> CvRDT for Orswot<M, A> {
 
 //@extract fn src/orswot.rs "CvRDT for Orswot" merge
     fn merge(&mut self, other: Self)
-    //@ ensures
-    //@     is_join(final(self).cl(), old(self).cl(), other.cl()),
-    //@     // a witness dot survives the merge iff the per-actor rule `mrg` keeps it and no pending remove of either side covers it
-    //@     forall|m: M, a: A| #![trigger cnt(final(self).ec(m), a)] cnt(final(self).ec(m), a) == ({
-    //@         let x = mrg(cnt(old(self).ec(m), a), cnt(other.ec(m), a), cnt(old(self).cl(), a), cnt(other.cl(), a));
-    //@         if covered_by(old(self).defs(), m, a, x) || covered_by(other.defs(), m, a, x) { 0 } else { x } }),
-    //@     // pending removes of both sides travel with the merge, as long as the merged clock does not cover them
-    //@     forall|k: VClock<A>| #![trigger final(self).defs().contains_key(k)] final(self).defs().contains_key(k) <==> ((old(self).defs().contains_key(k) || other.defs().contains_key(k)) && !vle(k@, final(self).cl())),
-    //@     forall|k: VClock<A>| #![trigger final(self).defs()[k]] final(self).defs().contains_key(k) ==> final(self).defs()[k]@ == old(self).dm(k).union(other.dm(k)),
+    //@ ensures merge_post(*old(self), other, *final(self)),
     {
         //@ proof { assert(old(self).wf() && other.wf() && params_ok::<M, A>()); }
         self.entries = /*@ shim_hashmap_filter_map_collect( @*/ mem::take(&mut self.entries)
@@ -448,19 +461,24 @@ impl<M: Hash + Eq + Clone, A: Ord + Hash + Clone> CvRDT for Orswot<M, A> {
 //@end
 }
 
+/// exact effect of Orswot::reset_remove (C18)
+pub open spec fn rr_post_orswot<M: Hash + Eq, A: Ord + Hash>(old_: Orswot<M, A>, c: SMap<A, u64>, new_: Orswot<M, A>) -> bool {
+        // C18: the replica clock and every member forget exactly the dots the given clock covers
+        &&& new_.cl() == vsub(old_.cl(), c)
+        &&& forall|m: M| #[trigger] new_.ec(m) == vsub(old_.ec(m), c)
+        // pending removes: contexts are reduced the same way, emptied ones are dropped (two contexts that become
+        // equal are folded into one entry by `collect`: only one member set survives -- see DESIGN, C18)
+        &&& forall|k2: VClock<A>| #[trigger] new_.defs().contains_key(k2) ==> exists|k: VClock<A>| #[trigger] old_.defs().contains_key(k) && k2@ == vsub(k@, c) && new_.defs()[k2] == old_.defs()[k]
+        &&& forall|k: VClock<A>| #[trigger] old_.defs().contains_key(k) && vsub(k@, c) != SMap::<A, u64>::empty() ==> exists|k2: VClock<A>| #[trigger] new_.defs().contains_key(k2) && k2@ == vsub(k@, c)
+}
+
 impl<M: Hash + Clone + Eq, A: Ord + Hash> ResetRemove<A> for Orswot<M, A> {
-    open spec fn rr_inv(&self) -> bool { actor_ok::<A>() && key_ok::<M>() && key_ok::<VClock<A>>() && self.wf() }
+    open spec fn rr_inv(&self) -> bool { base_ok::<M, A>() && self.wf() }
+    open spec fn rr_post(old_: &Self, clock: &VClock<A>, new_: &Self) -> bool { rr_post_orswot(*old_, clock@, *new_) }
 
 //@extract fn src/orswot.rs "ResetRemove for Orswot" reset_remove
     fn reset_remove(&mut self, clock: &VClock<A>)
-    //@ ensures
-    //@     // C18: the replica clock and every member forget exactly the dots the given clock covers
-    //@     final(self).cl() == vsub(old(self).cl(), clock@),
-    //@     forall|m: M| #[trigger] final(self).ec(m) == vsub(old(self).ec(m), clock@),
-    //@     // pending removes: contexts are reduced the same way, emptied ones are dropped (two contexts that become
-    //@     // equal are folded into one entry by `collect`: only one member set survives -- see DESIGN, C18)
-    //@     forall|k2: VClock<A>| #[trigger] final(self).defs().contains_key(k2) ==> exists|k: VClock<A>| #[trigger] old(self).defs().contains_key(k) && k2@ == vsub(k@, clock@) && final(self).defs()[k2] == old(self).defs()[k],
-    //@     forall|k: VClock<A>| #[trigger] old(self).defs().contains_key(k) && vsub(k@, clock@) != SMap::<A, u64>::empty() ==> exists|k2: VClock<A>| #[trigger] final(self).defs().contains_key(k2) && k2@ == vsub(k@, clock@),
+    //@ ensures rr_post_orswot(*old(self), clock@, *final(self)),
     {
         //@ proof { assert(self.clock.rr_inv()); c10_vsub_nz(self.clock@, clock@); }
         self.clock.reset_remove(clock);
@@ -480,6 +498,7 @@ impl<M: Hash + Clone + Eq, A: Ord + Hash> ResetRemove<A> for Orswot<M, A> {
             } /*@ } @*/ )
             /*@<*/ .collect() /*@>*/ ;
         //@ proof { lemma_rr_entries(*old(self), *self, clock@); }
+        //@ let ghost s1g = *self;
 
         self.deferred = /*@ shim_hashmap_filter_map_collect_rekey( @*/ mem::take(&mut self.deferred)
             /*@<*/ .into_iter()
@@ -495,7 +514,7 @@ impl<M: Hash + Clone + Eq, A: Ord + Hash> ResetRemove<A> for Orswot<M, A> {
                 }
             } /*@ } @*/ )
             /*@<*/ .collect() /*@>*/ ;
-        //@ proof { lemma_rr_deferred(*old(self), *self, clock@); }
+        //@ proof { lemma_rr_deferred(*old(self), *self, clock@); assert(self.ents() == s1g.ents()); assert forall|m: M| #[trigger] self.ec(m) == vsub(old(self).ec(m), clock@) by { assert(self.ec(m) == s1g.ec(m)); } }
     }
 //@end
 }
